@@ -187,13 +187,17 @@ PROPS = {
         "assumptions": ["SHA-256 collision resistance (the property's own assumption); serde_json's reader modelled and compared, not proved"],
     },
     "C18": {
-        "engines": ["codec"],
-        "footprint": {"parsed": "*"},
-        "nontrivial": r"^parsed err ",
+        "engines": ["codec", "json", "snap"],
+        "thorough_engines": ["codec", "json", "snap", "snapx"],
+        "footprint": {"parsed": "*", "jparsed": "*", "restored": "*"},
+        "nontrivial": r"^parsed err |^restored err|^jparsed err",
         "rule": "E-codec malformed stream: 1500 (thorough 20000 per shard) strings per type obtained from a valid encoding by character-level "
                 "deletion, insertion, substitution (structural characters, digits, letters, multi-byte characters), duplication or removal of a "
                 "field, truncation, and repeated edits; every from_str runs under catch_unwind with a per-op watchdog; the outcome class "
-                "(ok value / error variant) is compared with the model's and a panic or hang is a violation; non-trivial = a string the parser rejected",
-        "assumptions": ["JSON entry points: see C17; serde_json's own totality is assumed"],
+                "(ok value / error variant) is compared with the model's and a panic or hang is a violation; non-trivial = a string the parser rejected. "
+                "JSON entry points: E-json (every serde type's from_str on generated documents) and E-snap (from_snapshot_json on every truncation, deletion, "
+                "substitution, insertion and on the systematic structural mutations — every node x {delete, null, boundary numbers incl. 2^60, 2^63, 2^64-1, -1, 1e30, "
+                "other strings, empty container} and all pairs of them among the package's and snapshot's own fields), each under catch_unwind",
+        "assumptions": ["serde_json's own totality is assumed; allocation failure (abort) is only reachable through a capacity request, which shows as a panic for the sizes generated"],
     },
 }
